@@ -122,7 +122,7 @@ func init() {
 		runner.Part{Scenario: "simhost", Params: p("sm", "3", "hosts", "3", "snapshot", "5", "overhead", "0", "ppartition", "12", "pheal", "10", "pcrash", "12", "prestart", "60", "fsyield", "400", "ops", "40", "readmix", "10"), Share: 2},
 		// two shards per host: snapshot jobs that queue behind another shard's on the only snapshot worker, crashes and shard restarts meanwhile
 		runner.Part{Scenario: "simhost", Params: p("ballast", "1", "snapworkers", "1", "snapshot", "5", "overhead", "0", "psnapreq", "20", "smyield", "300", "fsyield", "200", "pcrash", "10", "pstop", "6", "ppartition", "8", "ops", "40"), Share: 1})
-	sh("C17", 120, 1200, runner.Part{Scenario: "simhost", Share: 1},
+	sh("C17", 150, 1200, runner.Part{Scenario: "simhost", Share: 1},
 		runner.Part{Scenario: "simhost", Params: p("pmember", "10", "ptransfer", "8", "ppartition", "8"), Share: 1},
 		// few full members plus witnesses / non-voting members, crashes in the middle of saves
 		runner.Part{Scenario: "simhost", Params: p("hosts", "3", "voters", "1", "memberbias", "2", "pmember", "40", "pcrash", "15", "prestart", "80", "fsyield", "400", "readmix", "20"), Share: 1},
